@@ -300,6 +300,37 @@ fn handed_to_synthesis(ctx: &mut Ctx, env: &Env, rng: &mut Rng, base: &Engine, r
         }
     }
     let got = [&run.spectrum, &run.lf0, &run.lpf];
+    // the per-state Gaussians as the engine's own model view hands them to parameter generation
+    // (one voice, weight 1): bit-equal to the file's float32 entries, the sign of zero included
+    let models = jbonsai::model::Models::new(&labels, &e.voices, e.condition.get_interporation_weight());
+    for (si, rs) in rv.streams.iter().enumerate() {
+        let ms = models.model_stream(si);
+        let want: Vec<&crate::synth::Gauss> = per_label.iter().flat_map(|rl| rl.streams[si].iter()).collect();
+        if ms.stream.len() != want.len() {
+            ctx.violation("parameters-handed-to-synthesis-are-not-the-files-entries", J::obj().set("voice", descr).set("stream", rs.name.clone()).set("states", ms.stream.len()).set("expected_states", want.len()));
+            return;
+        }
+        for (k, ((pars, msd), g)) in ms.stream.iter().zip(&want).enumerate() {
+            let same = pars.len() == g.mean.len()
+                && pars.iter().zip(g.mean.iter().zip(&g.vari)).all(|(p, (m, v))| p.0.to_bits() == m.to_bits() && p.1.to_bits() == v.to_bits())
+                && msd.to_bits() == g.msd.unwrap_or(f64::MAX).to_bits();
+            ctx.count("state_gaussians_on_the_synthesis_path_compared", 1.0);
+            if !same {
+                let at = pars.iter().zip(g.mean.iter().zip(&g.vari)).position(|(p, (m, v))| p.0.to_bits() != m.to_bits() || p.1.to_bits() != v.to_bits());
+                ctx.violation(
+                    "parameters-handed-to-synthesis-are-not-the-files-entries",
+                    J::obj()
+                        .set("voice", descr)
+                        .set("stream", rs.name.clone())
+                        .set("state_in_utterance", k)
+                        .set("component", at.map(|x| x as f64).unwrap_or(-1.0))
+                        .set("got", at.map(|x| format!("{:?}", pars[x])).unwrap_or_else(|| format!("voicing weight {:?}", msd)))
+                        .set("file", at.map(|x| format!("({:?}, {:?})", g.mean[x], g.vari[x])).unwrap_or_else(|| format!("{:?}", g.msd))),
+                );
+                return;
+            }
+        }
+    }
     for (si, rs) in rv.streams.iter().enumerate() {
         let stream: Vec<(Vec<MeanVari>, f64)> = per_label
             .iter()
